@@ -388,3 +388,113 @@ func (e *Engine) ifaceImplInventory(ifaceKey string) analysisResult {
 	res.Desc += fmt.Sprintf(" (%d implementations)", len(impls))
 	return res
 }
+
+// dataKeyInventory discharges the documented panic condition of data.Lookup for every call site in the
+// repository ("panics if the type of the value for the pointer is not compatible with the value
+// associated with the key"): match data is keyed by values of distinct named key types; for every key
+// type, every data.WithValue in the repository stores values of one and the same type under it, and every
+// data.Lookup with a key of that type copies into a pointer to exactly that type. Keys and values whose
+// static type at the call site is an interface (forwarded values) cannot be classified and are reported.
+func (e *Engine) dataKeyInventory() analysisResult {
+	res := analysisResult{Name: "inventory/datakeys", OK: true,
+		Desc: "for every key type, all data.WithValue sites store one value type and every data.Lookup site reads into a pointer to that type"}
+	stored := map[string]map[string]string{} // key type -> value type -> a site
+	looked := map[string]map[string]string{} // key type -> pointee type -> a site
+	concrete := func(v ssa.Value) (types.Type, bool) {
+		if mi, ok := v.(*ssa.MakeInterface); ok {
+			return types.Unalias(mi.X.Type()), true // an alias is the same type as what it names
+		}
+		return nil, false
+	}
+	var keys []string
+	for k := range e.funcs {
+		keys = append(keys, k)
+	}
+	sort.Strings(keys)
+	nsites := 0
+	for _, k := range keys {
+		fn := e.funcs[k]
+		if fn.Blocks == nil || !e.isRepoFn(fn) {
+			continue
+		}
+		for _, b := range fn.Blocks {
+			for _, in := range b.Instrs {
+				ci, ok := in.(ssa.CallInstruction)
+				if !ok {
+					continue
+				}
+				sf := ci.Common().StaticCallee()
+				if sf == nil {
+					continue
+				}
+				name := sf.String()
+				isWith := name == e.modPath+"/internal/data.WithValue"
+				isLook := name == e.modPath+"/internal/data.Lookup"
+				if !isWith && !isLook {
+					continue
+				}
+				nsites++
+				pos := e.fset.Position(in.Pos())
+				site := fmt.Sprintf("%s:%d", strings.TrimPrefix(pos.Filename, "/repo/"), pos.Line)
+				args := ci.Common().Args
+				kt, ok1 := concrete(args[1])
+				vt, ok2 := concrete(args[2])
+				if !ok1 || !ok2 {
+					res.OK = false
+					res.Detail = append(res.Detail, site+": key or value of "+shortCallee(name)+" is not boxed at the call site (cannot be classified)")
+					continue
+				}
+				if isLook {
+					el, isPtr := deref(vt)
+					if !isPtr {
+						res.OK = false
+						res.Detail = append(res.Detail, site+": data.Lookup target is not a pointer")
+						continue
+					}
+					vt = el
+				}
+				m := stored
+				if isLook {
+					m = looked
+				}
+				if m[kt.String()] == nil {
+					m[kt.String()] = map[string]string{}
+				}
+				if _, seen := m[kt.String()][vt.String()]; !seen {
+					m[kt.String()][vt.String()] = site
+				}
+			}
+		}
+	}
+	var kts []string
+	for kt := range stored {
+		kts = append(kts, kt)
+	}
+	for kt := range looked {
+		if stored[kt] == nil {
+			kts = append(kts, kt)
+		}
+	}
+	sort.Strings(kts)
+	for _, kt := range kts {
+		if len(stored[kt]) > 1 {
+			res.OK = false
+			var vs []string
+			for vt, s := range stored[kt] {
+				vs = append(vs, vt+" ("+s+")")
+			}
+			sort.Strings(vs)
+			res.Detail = append(res.Detail, "values of different types are stored under keys of type "+shortCallee(kt)+": "+strings.Join(vs, ", "))
+		}
+		for pt, s := range looked[kt] {
+			for vt, ws := range stored[kt] {
+				if vt != pt {
+					res.OK = false
+					res.Detail = append(res.Detail, fmt.Sprintf("%s: data.Lookup under a key of type %s reads into *%s but %s stores %s: reflect.Value.Set panics", s, shortCallee(kt), shortCallee(pt), ws, shortCallee(vt)))
+				}
+			}
+		}
+	}
+	res.Desc += fmt.Sprintf(" (%d call sites)", nsites)
+	return res
+}
